@@ -2055,3 +2055,475 @@ Proof.
 Qed.
 Print Assumptions C18_cbor_next_total_fresh.
 Print Assumptions C18_cbor_next_total_bytes.
+
+(* ---------- Next against the reference decoder ---------- *)
+From SF Require Cbor.Spec Cbor.ConformanceProofs Cbor.ComposeProofs Core.AdapterProofs.
+
+Module CF := ConformanceProofs.
+Module CP := ComposeProofs.
+
+Lemma s_add_sadd : forall s l, CF.sadd s l = s_add s l.
+Proof. reflexivity. Qed.
+
+Lemma dec_next_bytes_S : forall f b s, b <> [] ->
+  dec_next (S f) (bytes_dec b) s = dec_body f (bytes_dec b) s.
+Proof.
+  intros f b s Hne. rewrite dec_next_S. unfold dec_fill, bytes_dec. cbn [d_buf].
+  assert (E : (zlen b =? 0) = false).
+  { destruct b as [|x r]; [congruence|]. unfold zlen. cbn [length]. lia. }
+  rewrite E. cbn [d_buf]. rewrite E. reflexivity.
+Qed.
+
+(* the next item is one the reference decoder accepts: Next delivers exactly its events *)
+Lemma bytes_next_value : forall f b s v rest,
+  b <> [] -> all_bytes b = true -> zlen b <= CF.MaxInt64 -> s_fail s = None ->
+  Spec.cbor_decode b = RValue v rest ->
+  exists t, wf_tree t = true /\ cv (value_of t) = v /\ all_bytes rest = true /\ (length rest < length b)%nat /\
+    dec_next (S f) (bytes_dec b) s = Ok (bytes_dec rest, s_add s (flatten t), nilE).
+Proof.
+  intros f b s v rest Hne Hb Hsz Hs Hd.
+  assert (Hf : CF.fuel_ok (S (length b)) b) by (apply CF.decode_fuel_ok; unfold CF.MaxInt64 in *; lia).
+  unfold Spec.cbor_decode in Hd.
+  destruct (CF.value_ok _ b v rest Hd Hb Hf cparser0 s CP.vctx_top Hs)
+    as (t & n & Hwf & Hcv & (Hc & Hrb) & Hreach).
+  pose proof (CP.feed_until_top_value b s _ rest n Hne ltac:(lia) Hreach) as Hfu.
+  exists t. split; [exact Hwf|]. split; [exact Hcv|]. split; [exact Hrb|]. split; [lia|].
+  rewrite dec_next_bytes_S by exact Hne. unfold dec_body, bytes_dec. cbn [d_buf d_p d_script d_bytesdec].
+  rewrite Hfu. reflexivity.
+Qed.
+
+Lemma finalize_cases : forall p, finalize p = nilE \/ finalize p = eIncomplete.
+Proof. intros p. unfold finalize. destruct (_ || _ || _); auto. Qed.
+
+(* anything else: Next reports an error, and not io.EOF, when the input ends inside an item *)
+Lemma bytes_next_reject : forall f b s,
+  b <> [] -> all_bytes b = true -> zlen b <= CF.MaxInt64 -> s_fail s = None ->
+  CF.is_value (Spec.cbor_decode b) = false ->
+  exists d' s' e, dec_next (S (S f)) (bytes_dec b) s = Ok (d', s', e) /\ e <> nilE /\
+    (e = eIncomplete \/ exists p1 rest d, feed_until (feed_fuel b) cparser0 s b = Ok (SR p1 s' rest d e)).
+Proof.
+  intros f b s Hne Hb Hsz Hs Hnv.
+  assert (Hf : CF.fuel_ok (S (length b)) b) by (apply CF.decode_fuel_ok; unfold CF.MaxInt64 in *; lia).
+  unfold Spec.cbor_decode in Hnv.
+  pose proof (CF.reject_ok (S (length b)) b Hnv Hb Hf cparser0 s CF.rctx_top Hs ltac:(congruence)) as HR.
+  unfold CF.reject_goal in HR. destruct HR as (n & Hn & HR).
+  rewrite dec_next_bytes_S by exact Hne. unfold dec_body, bytes_dec. cbn [d_buf d_p d_script d_bytesdec].
+  assert (Hfu : exists Y, feed_until (feed_fuel b) cparser0 s b = Ok Y /\ CF.bad_end Y).
+  { unfold feed_fuel. replace (8 * length b + 16)%nat with (S (n + (8 * length b + 15 - n)))%nat by lia.
+    rewrite CF.feed_until_S, CF.exec_at_value by reflexivity. apply HR. }
+  destruct Hfu as (Y & Hfu & Hbad). rewrite Hfu.
+  destruct Y as [p1 s1 rest d e|w]; [|destruct Hbad]. cbn [CF.bad_end] in Hbad.
+  destruct (isnil e) eqn:Ee; cbn [negb].
+  - apply isnil_true in Ee. subst e. destruct Hbad as [Hbad|[-> Hinc]]; [congruence|].
+    assert (Hd : d = false).
+    { destruct d; [|reflexivity]. exfalso. apply Hinc.
+      pose proof (feed_until_RU _ _ _ _ _ _ _ _ _ Hfu) as HRU.
+      pose proof (RU_inv _ _ _ _ HRU ChunkProofs.Inv0 eq_refl) as HCI.
+      destruct (C17_cbor_value_done 0 _ _ _ _ _ _ _ (clean_Inv _ _ clean0) Hfu) as (Hc & Hst & _).
+      destruct HCI as (_ & _ & Hbuf).
+      assert (Hb0 : p_buf p1 = []).
+      { apply ChunkProofs.bufok_0. rewrite <- (ChunkProofs.count_of_0 p1); [exact Hbuf|..];
+          unfold ChunkProofs.maj; rewrite Hc; discriminate. }
+      unfold finalize. rewrite Hst, Hb0, Hc. reflexivity. }
+    subst d. rewrite dec_next_S. unfold dec_fill. cbn [d_buf d_bytesdec d_p].
+    change (zlen (@nil Z) =? 0) with true. cbv iota.
+    do 3 eexists. split; [reflexivity|].
+    unfold CF.incomplete in Hinc. destruct (finalize_cases p1) as [E|E]; [contradiction|].
+    rewrite E. change (isnil eIncomplete) with false. cbv iota. split; [discriminate|]. left. reflexivity.
+  - apply isnil_false in Ee. do 3 eexists. split; [reflexivity|]. split; [exact Ee|].
+    right. eauto.
+Qed.
+
+(* ---------- the error classes a parser step can return ---------- *)
+Definition eclass (e : Z) : Prop := e = nilE \/ e = eVisitor \/ 1 <= e <= 7.
+
+Lemma vis_class : forall s ev s1 e, vis s ev = (s1, e) -> e = nilE \/ e = eVisitor.
+Proof.
+  intros s ev s1 e H. unfold vis in H. destruct (emit s ev) as [s' ok]. destruct ok; inversion H; auto.
+Qed.
+
+Lemma on_value_class : forall fuel p s p' s' d e, on_value fuel p s = Some (p', s', d, e) -> eclass e.
+Proof.
+  induction fuel as [|f IH]; intros p s p' s' d e H; [discriminate|].
+  cbn [on_value] in H. cbv zeta in H.
+  repeat match type of H with
+  | context [vis ?s0 ?ev] => destruct (vis s0 ev) as [? ?] eqn:?
+  | context [if ?c then _ else _] => destruct c eqn:?
+  end;
+  try (inversion H; subst; unfold eclass; auto; fail);
+  try (eapply IH; exact H).
+  inversion H; subst. match goal with Hv : vis _ _ = _ |- _ => destruct (vis_class _ _ _ _ Hv) end; unfold eclass; auto.
+Qed.
+
+Lemma pop_state_class : forall p s p' s' d e, pop_state p s = Some (p', s', d, e) -> eclass e.
+Proof. intros p s p' s' d e H. unfold pop_state in H. eapply on_value_class; eauto. Qed.
+
+Lemma emit_bytes_class : forall l s s1 e, emit_bytes s l = (s1, e) -> e = nilE \/ e = eVisitor.
+Proof.
+  induction l as [|c r IH]; intros s s1 e H; cbn [emit_bytes] in H.
+  - inversion H; auto.
+  - destruct (vis s (EVal (SNum KByte c))) as [s2 e2] eqn:Hv. destruct (isnil e2).
+    + eapply IH; eauto.
+    + inversion H; subst. eapply vis_class; eauto.
+Qed.
+
+Ltac cls_const := unfold eclass, nilE, eVisitor, eInvalidCode, eTextKeyRequired, eIndefByteSeq, eUnsupported,
+                         eIntRange, eLenRange, eIncomplete; lia.
+
+Ltac cls H :=
+  try discriminate H;
+  injection H as ? ? ? ? ?; subst;
+  first
+  [ cls_const
+  | match goal with
+    | Hv : vis _ _ = (_, ?e) |- eclass ?e => destruct (vis_class _ _ _ _ Hv); subst; cls_const
+    | Hv : emit_bytes _ _ = (_, ?e) |- eclass ?e => destruct (emit_bytes_class _ _ _ _ Hv); subst; cls_const
+    | Hv : on_value _ _ _ = Some (_, _, _, ?e) |- eclass ?e => eapply on_value_class; exact Hv
+    | Hv : pop_state _ _ = Some (_, _, _, ?e) |- eclass ?e => eapply pop_state_class; exact Hv
+    end ].
+
+Lemma init_byte_seq_class : forall p s major minor b p' s' r d e,
+  init_byte_seq p s major minor b = SR p' s' r d e -> eclass e.
+Proof. intros until e. intros H. unfold init_byte_seq in H. repeat brk_in H; cls H. Qed.
+
+Lemma init_sub_class : forall p s major minor b p' s' r d e,
+  init_sub p s major minor b = SR p' s' r d e -> eclass e.
+Proof. intros until e. intros H. unfold init_sub in H. repeat brk_in H; cls H. Qed.
+
+Lemma step_value_class : forall p s b p' s' r d e, step_value p s b = SR p' s' r d e -> eclass e.
+Proof.
+  intros until e. intros H. unfold step_value in H. destruct b as [|b0 b]; [cls H|].
+  cbv zeta in H. remember (b0 / 32 * 32) as major. remember (b0 mod 32) as minor.
+  clear Heqmajor Heqminor. unfold after_value in H.
+  repeat match type of H with
+  | context [if ?c then _ else _] => destruct c eqn:?
+  end;
+  try (eapply init_byte_seq_class; exact H); try (eapply init_sub_class; exact H);
+  repeat brk_in H; cls H.
+Qed.
+
+Lemma step_num_class : forall neg p s b p' s' r d e, step_num neg p s b = SR p' s' r d e -> eclass e.
+Proof. intros until e. intros H. unfold step_num, get_uint, after_pop in H. repeat brk_in H; cls H. Qed.
+
+Lemma step_float_class : forall w p s b p' s' r d e, step_float w p s b = SR p' s' r d e -> eclass e.
+Proof. intros until e. intros H. unfold step_float, get_uint in H. repeat brk_in H; cls H. Qed.
+
+Lemma step_len_class : forall p s b p' s' r d e, step_len p s b = SR p' s' r d e -> eclass e.
+Proof. intros until e. intros H. unfold step_len, get_uint in H. repeat brk_in H; cls H. Qed.
+
+Lemma step_bytes_class : forall p s b p' s' r d e, step_bytes p s b = SR p' s' r d e -> eclass e.
+Proof.
+  intros until e. intros H. unfold step_bytes in H.
+  destruct (c_minor (p_cur p) =? stStart).
+  - destruct (vis s (EArrStart (p_lcur p) BByte)) as [s1 e1] eqn:Hv.
+    destruct (isnil e1) eqn:E1; cbn [negb] in H; [|cls H].
+    repeat brk_in H; cls H.
+  - change (isnil nilE) with true in H. cbn [negb] in H. repeat brk_in H; cls H.
+Qed.
+
+Lemma step_text_class : forall p s b p' s' r d e, step_text p s b = SR p' s' r d e -> eclass e.
+Proof. intros until e. intros H. unfold step_text in H. repeat brk_in H; cls H. Qed.
+
+Lemma step_key_class : forall p s b p' s' r d e, step_key p s b = SR p' s' r d e -> eclass e.
+Proof. intros until e. intros H. unfold step_key in H. repeat brk_in H; cls H. Qed.
+
+Lemma init_map_key_class : forall p s b p' s' r d e, init_map_key p s b = SR p' s' r d e -> eclass e.
+Proof.
+  intros until e. intros H. unfold init_map_key in H.
+  repeat match type of H with
+  | context [match ?b with [] => _ | _ :: _ => _ end] => destruct b
+  | context [if ?c then _ else _] => destruct c eqn:?
+  end; try (eapply init_byte_seq_class; exact H); cls H.
+Qed.
+
+Lemma step_array_class : forall p s b p' s' r d e, step_array p s b = SR p' s' r d e -> eclass e.
+Proof.
+  intros until e. intros H. unfold step_array, handle_len in H.
+  destruct (p_lcur p >? 0); [eapply step_value_class; exact H|].
+  destruct (vis s EArrEnd) as [s1 e1] eqn:Hv. destruct (isnil e1).
+  - destruct (pop_state (len_pop p) s1) as [[[[p2 s2] d2] e2]|] eqn:Hps; cls H.
+  - cls H.
+Qed.
+
+Lemma step_map_class : forall p s b p' s' r d e, step_map p s b = SR p' s' r d e -> eclass e.
+Proof.
+  intros until e. intros H. unfold step_map, handle_len in H.
+  destruct (p_lcur p >? 0).
+  - destruct (zlen b >? 0); [eapply init_map_key_class; exact H|cls H].
+  - destruct (vis s EObjEnd) as [s1 e1] eqn:Hv. destruct (isnil e1).
+    + destruct (pop_state (len_pop p) s1) as [[[[p2 s2] d2] e2]|] eqn:Hps; cls H.
+    + cls H.
+Qed.
+
+Ltac cls_inline H :=
+  repeat match type of H with
+  | context [vis ?s0 ?ev] => destruct (vis s0 ev) as [? ?] eqn:?
+  | context [if ?c then _ else _] => destruct c
+  | context [match ?b with [] => _ | _ :: _ => _ end] => destruct b
+  | context [match pop_state ?a ?b with _ => _ end] => destruct (pop_state a b) as [[[[? ?] ?] ?]|] eqn:?
+  end;
+  lazymatch type of H with
+  | step_value _ _ _ = _ => eapply step_value_class; exact H
+  | step_bytes _ _ _ = _ => eapply step_bytes_class; exact H
+  | step_text _ _ _ = _ => eapply step_text_class; exact H
+  | step_array _ _ _ = _ => eapply step_array_class; exact H
+  | step_map _ _ _ = _ => eapply step_map_class; exact H
+  | step_key _ _ _ = _ => eapply step_key_class; exact H
+  | init_map_key _ _ _ = _ => eapply init_map_key_class; exact H
+  | _ => cls H
+  end.
+
+Ltac disp H tac :=
+  match type of H with (if ?c then _ else _) = _ => destruct c; [solve [tac]|] end.
+
+Lemma exec_step_class : forall p s b p' s' r d e,
+  exec_step p s b = SR p' s' r d e -> c_major (p_cur p) <> stFail -> eclass e.
+Proof.
+  intros until e. intros H Hnf. unfold exec_step in H. cbv zeta in H.
+  destruct (c_major (p_cur p) =? stFail) eqn:E0; [apply Z.eqb_eq in E0; contradiction|].
+  disp H ltac:(eapply step_value_class; exact H).
+  disp H ltac:(eapply step_len_class; exact H).
+  disp H ltac:(eapply step_num_class; exact H).
+  disp H ltac:(eapply step_num_class; exact H).
+  disp H ltac:(eapply step_float_class; exact H).
+  disp H ltac:(eapply step_float_class; exact H).
+  disp H ltac:(cls_inline H).
+  disp H ltac:(eapply step_bytes_class; exact H).
+  disp H ltac:(cls_inline H).
+  disp H ltac:(eapply step_text_class; exact H).
+  disp H ltac:(cls_inline H).
+  disp H ltac:(eapply step_array_class; exact H).
+  disp H ltac:(cls_inline H).
+  disp H ltac:(cls_inline H).
+  disp H ltac:(eapply step_map_class; exact H).
+  disp H ltac:(cls_inline H).
+  disp H ltac:(cls_inline H).
+  disp H ltac:(eapply step_key_class; exact H).
+  disp H ltac:(eapply step_value_class; exact H).
+  cls H.
+Qed.
+
+Lemma Inv_not_fail : forall L0 p, Inv L0 p -> c_major (p_cur p) <> stFail.
+Proof.
+  intros L0 p (HS & _ & _) E. unfold cfg in HS. destruct (p_stack p) as [|c r].
+  - apply (proj1 (shape_1 _)) in HS. rewrite HS in E. discriminate.
+  - apply shape_cc in HS. destruct HS as [Hok _]. unfold kd in Hok. rewrite E in Hok. discriminate.
+Qed.
+
+Lemma feed_until_class : forall L0 n p s b p' s' r d e,
+  Inv L0 p -> feed_until n p s b = Ok (SR p' s' r d e) -> eclass e.
+Proof.
+  induction n as [|n IH]; intros p s b p' s' r d e HI H; [discriminate|].
+  cbn [feed_until] in H.
+  destruct (exec_step p s b) as [p1 s1 rest done err|w] eqn:Hx; [|discriminate].
+  pose proof (exec_step_class _ _ _ _ _ _ _ _ Hx (Inv_not_fail _ _ HI)) as Hc.
+  destruct (done || negb (isnil err)) eqn:Ed.
+  - inversion H; subst. exact Hc.
+  - apply orb_false_iff in Ed. destruct Ed as [-> Ee]. apply negb_false_iff in Ee.
+    apply isnil_true in Ee. subst err.
+    destruct (negb (zlen rest =? 0) || (Z.land (c_major (p_cur p1)) (stStartX + stIndef) =? stStartX)).
+    + eapply IH; [|exact H]. exact (proj1 (exec_step_inv _ _ _ _ _ _ _ _ _ HI Hx eq_refl)).
+    + inversion H; subst. exact Hc.
+Qed.
+
+
+Lemma eclass_not_eof : forall e, eclass e -> e <> eEOF.
+Proof. intros e [H|[H|H]]; subst; try discriminate. unfold eEOF. lia. Qed.
+
+Lemma s_log_add : forall s l, s_log (s_add s l) = s_log s ++ l.
+Proof. intros. unfold s_log, s_add. cbn [s_rlog]. rewrite rev_app_distr, rev_involutive. reflexivity. Qed.
+
+Lemma rem_bytes_dec : forall b, rem (bytes_dec b) = b.
+Proof. intros. unfold rem, tailb, bytes_dec. cbn [d_buf d_bytesdec]. apply app_nil_r. Qed.
+
+(* C18, one call: a decoder between two values (parser state cparser0: a new
+   decoder, or one whose previous calls all returned nil), reading from a
+   well-behaved reader, whatever the sizes of its reads; W = rem d is the
+   concatenation of the bytes still to come.
+   - W empty: io.EOF and no event;
+   - W starts with an item of the supported subset: nil, the events delivered
+     are exactly the events of that one item (they form one well-formed tree
+     whose value is the reference value), nothing of the following item is
+     consumed or delivered, and the decoder is again between two values;
+   - otherwise (malformed, unsupported, or the input ends inside the item): an
+     error that is neither nil nor io.EOF. *)
+Theorem C18_cbor_next_one_value_partial : forall fuel d s d' s' e,
+  d_p d = cparser0 -> script_okb (d_script d) = true ->
+  all_bytes (rem d) = true -> zlen (rem d) <= CF.MaxInt64 -> s_fail s = None ->
+  dec_next fuel d s = Ok (d', s', e) ->
+  match rem d with
+  | [] => e = eEOF /\ s' = s
+  | _ :: _ =>
+      match Spec.cbor_decode (rem d) with
+      | RValue v rest =>
+          e = nilE /\
+          exists t, wf_tree t = true /\ cv (value_of t) = v /\
+                    s' = s_add s (flatten t) /\ stream_tree (flatten t) = Some (AdapterProofs.norm t) /\
+                    d_p d' = cparser0 /\ rem d' = rest /\ script_okb (d_script d') = true /\
+                    all_bytes rest = true /\ (length rest < length (rem d))%nat
+      | _ => e <> nilE /\ e <> eEOF
+      end
+  end.
+Proof.
+  intros fuel d s d' s' e Hp Hsc Hb Hsz Hs H.
+  assert (HI : CInv (d_p d)) by (rewrite Hp; exact ChunkProofs.Inv0).
+  destruct (rem d) as [|x W'] eqn:HW.
+  - destruct (dec_next_sound _ _ _ _ _ _ HI Hsc H) as (r & N & S & _).
+    rewrite HW in N. inversion N; subst; try congruence.
+    cbn [simW] in S. destruct S as (<- & <- & _). rewrite Hp. split; reflexivity.
+  - set (W := x :: W') in *.
+    assert (Hne : W <> []) by discriminate.
+    assert (Hind : forall d2 s2 e2, dec_next 2 (bytes_dec W) s = Ok (d2, s2, e2) ->
+              s' = s2 /\ e = e2 /\ (e = nilE -> d_p d' = d_p d2 /\ rem d' = rem d2 /\ script_okb (d_script d') = true)).
+    { intros d2 s2 e2 H2.
+      destruct (C18_cbor_script_independent_partial fuel 2 d (bytes_dec W) s d' s' e d2 s2 e2 HI Hp
+                  ltac:(rewrite rem_bytes_dec; exact HW) Hsc eq_refl H H2) as (A & B & C).
+      split; [exact A|]. split; [exact B|]. intros E. destruct (C E) as (C1 & C2 & _ & C4 & _). auto. }
+    destruct (Spec.cbor_decode W) as [v rest| | |] eqn:Hd.
+    + destruct (bytes_next_value 1 W s v rest Hne Hb Hsz Hs Hd) as (t & Hwf & Hcv & Hrb & Hlen & Hn).
+      destruct (Hind _ _ _ Hn) as (-> & -> & K). destruct (K eq_refl) as (K1 & K2 & K3).
+      split; [reflexivity|]. exists t. rewrite rem_bytes_dec in K2.
+      repeat split; try assumption. apply AdapterProofs.stream_tree_flatten.
+    + destruct (bytes_next_reject 0 W s Hne Hb Hsz Hs ltac:(rewrite Hd; reflexivity))
+        as (d2 & s2 & e2 & Hn & He & Hc).
+      destruct (Hind _ _ _ Hn) as (_ & -> & _). split; [exact He|].
+      destruct Hc as [->|(p1 & r1 & dd & Hf)]; [discriminate|].
+      apply eclass_not_eof. eapply (feed_until_class 0); [apply clean_Inv; exact clean0|exact Hf].
+    + destruct (bytes_next_reject 0 W s Hne Hb Hsz Hs ltac:(rewrite Hd; reflexivity))
+        as (d2 & s2 & e2 & Hn & He & Hc).
+      destruct (Hind _ _ _ Hn) as (_ & -> & _). split; [exact He|].
+      destruct Hc as [->|(p1 & r1 & dd & Hf)]; [discriminate|].
+      apply eclass_not_eof. eapply (feed_until_class 0); [apply clean_Inv; exact clean0|exact Hf].
+    + destruct (bytes_next_reject 0 W s Hne Hb Hsz Hs ltac:(rewrite Hd; reflexivity))
+        as (d2 & s2 & e2 & Hn & He & Hc).
+      destruct (Hind _ _ _ Hn) as (_ & -> & _). split; [exact He|].
+      destruct Hc as [->|(p1 & r1 & dd & Hf)]; [discriminate|].
+      apply eclass_not_eof. eapply (feed_until_class 0); [apply clean_Inv; exact clean0|exact Hf].
+Qed.
+Print Assumptions C18_cbor_next_one_value_partial.
+
+(* what k successful calls followed by io.EOF look like: after each call the
+   log has grown by exactly the events of the next tree *)
+Fixpoint expect (log : list event) (ts : list tree) : list (list event * Z) :=
+  match ts with
+  | [] => [(log, eEOF)]
+  | t :: r => (log ++ flatten t, nilE) :: expect (log ++ flatten t) r
+  end.
+
+(* C18, whole stream: if the bytes still to come are k complete items of the
+   supported subset (the reference decoder reads all of them), then - whatever
+   the read sizes - k calls of Next succeed, each delivering the complete
+   events of exactly the next item, and the (k+1)-th call reports io.EOF. *)
+Theorem C18_cbor_run_spec_partial : forall vs g fuel d s l,
+  d_p d = cparser0 -> script_okb (d_script d) = true ->
+  all_bytes (rem d) = true -> zlen (rem d) <= CF.MaxInt64 -> s_fail s = None ->
+  Spec.cbor_decode_all g (rem d) = Some vs ->
+  dec_run fuel (S (length vs)) d s = Ok l ->
+  exists ts, map (fun t => cv (value_of t)) ts = vs /\ forallb wf_tree ts = true /\
+             l = expect (s_log s) ts.
+Proof.
+  induction vs as [|v vs IH]; intros g fuel d s l Hp Hsc Hb Hsz Hs Hall Hrun.
+  - assert (HW : rem d = []).
+    { destruct g as [|g]; [discriminate|]. cbn [Spec.cbor_decode_all] in Hall.
+      destruct (rem d) as [|x r]; [reflexivity|].
+      destruct (Spec.cbor_decode (x :: r)) as [v1 r1| | |]; try discriminate.
+      destruct (Spec.cbor_decode_all g r1); discriminate. }
+    cbn [length dec_run] in Hrun.
+    destruct (dec_next fuel d s) as [[[d' s'] e]| | |] eqn:Hn; try discriminate.
+    pose proof (C18_cbor_next_one_value_partial _ _ _ _ _ _ Hp Hsc Hb Hsz Hs Hn) as K.
+    rewrite HW in K. destruct K as [-> ->]. change (isnil eEOF) with false in Hrun.
+    inversion Hrun; subst. exists []. repeat split.
+  - destruct g as [|g]; [discriminate|]. cbn [Spec.cbor_decode_all] in Hall.
+    destruct (rem d) as [|x r] eqn:HW; [discriminate|]. rewrite <- HW in Hb, Hsz.
+    destruct (Spec.cbor_decode (x :: r)) as [v1 r1| | |] eqn:Hd; try discriminate.
+    destruct (Spec.cbor_decode_all g r1) as [vs1|] eqn:Hall1; [|discriminate].
+    inversion Hall; subst v1 vs1. clear Hall.
+    cbn [length] in Hrun. change (dec_run fuel (S (S (length vs))) d s) with
+      (match dec_next fuel d s with
+       | Ok (d', s', e) =>
+           if isnil e then
+             match dec_run fuel (S (length vs)) d' s' with
+             | Ok l => Ok ((s_log s', e) :: l)
+             | x => x
+             end
+           else Ok [(s_log s', e)]
+       | Err e => Err e | Panic w => Panic w | OutOfFuel => OutOfFuel
+       end) in Hrun.
+    destruct (dec_next fuel d s) as [[[d' s'] e]| | |] eqn:Hn; try discriminate.
+    pose proof (C18_cbor_next_one_value_partial _ _ _ _ _ _ Hp Hsc Hb Hsz Hs Hn) as K.
+    rewrite HW, Hd in K. destruct K as (-> & t & Hwf & Hcv & -> & _ & Hp' & Hr' & Hsc' & Hb' & Hlen).
+    change (isnil nilE) with true in Hrun. cbv iota in Hrun.
+    destruct (dec_run fuel (S (length vs)) d' (s_add s (flatten t))) as [l'| | |] eqn:Hrun'; try discriminate.
+    inversion Hrun; subst l. clear Hrun.
+    destruct (IH g fuel d' (s_add s (flatten t)) l' Hp' Hsc') as (ts & Hts & Hwfs & Hl').
+    + rewrite Hr'. exact Hb'.
+    + rewrite Hr'. rewrite HW in Hsz. unfold zlen in *. cbn [length] in Hlen, Hsz. lia.
+    + exact Hs.
+    + rewrite Hr'. exact Hall1.
+    + exact Hrun'.
+    + exists (t :: ts). cbn [map forallb expect]. rewrite Hcv, Hts, Hwf, Hwfs, Hl', s_log_add.
+      repeat split.
+Qed.
+Print Assumptions C18_cbor_run_spec_partial.
+
+(* ... and these k+1 calls do return: together with C18_cbor_next_total *)
+Lemma dec_run_total : forall k fuel d s,
+  SInv (d_p d) -> all_bytes (d_buf d) = true -> script_bytes (d_script d) = true ->
+  (length (d_script d) + 1 < fuel)%nat ->
+  exists l, dec_run fuel k d s = Ok l.
+Proof.
+  induction k as [|k IH]; intros fuel d s HI Hb Hs Hm; cbn [dec_run]; [eauto|].
+  destruct (C18_cbor_next_total fuel d s HI Hb Hs Hm) as (d' & s' & e & Hn & Hp). rewrite Hn.
+  destruct (isnil e) eqn:Ee; [|eauto].
+  apply isnil_true in Ee. destruct (Hp Ee) as (A & B & C & D).
+  destruct (IH fuel d' s' A B C ltac:(lia)) as (l & Hl). rewrite Hl. eauto.
+Qed.
+
+Lemma all_bytes_app' : forall a b, all_bytes (a ++ b) = all_bytes a && all_bytes b.
+Proof. intros. unfold all_bytes. apply forallb_app. Qed.
+
+Lemma script_bytes_concat : forall sc, all_bytes (concat (map fst sc)) = true -> script_bytes sc = true.
+Proof.
+  induction sc as [|[data err] r IH]; intros H; [reflexivity|].
+  cbn [map fst concat] in H. rewrite all_bytes_app' in H. apply andb_true_iff in H. destruct H as [H1 H2].
+  unfold script_bytes. cbn [forallb fst]. rewrite H1. exact (IH H2).
+Qed.
+
+(* The statement of C18 for a reader-based decoder, without premises on the
+   outcome: for every well-behaved read script whose bytes are k complete items,
+   and every sufficient fuel, the run of k+1 calls returns and is exactly
+   "k values, one per call, then io.EOF". *)
+Theorem C18_cbor_reader_stream : forall sc vs g fuel s,
+  script_okb sc = true ->
+  all_bytes (concat (map fst sc)) = true -> zlen (concat (map fst sc)) <= CF.MaxInt64 ->
+  s_fail s = None ->
+  Spec.cbor_decode_all g (concat (map fst sc)) = Some vs ->
+  (length sc + 1 < fuel)%nat ->
+  exists ts, map (fun t => cv (value_of t)) ts = vs /\ forallb wf_tree ts = true /\
+             dec_run fuel (S (length vs)) (reader_dec sc) s = Ok (expect (s_log s) ts).
+Proof.
+  intros sc vs g fuel s Hsc Hb Hsz Hs Hall Hfuel.
+  assert (Hrem : rem (reader_dec sc) = concat (map fst sc)) by reflexivity.
+  destruct (dec_run_total (S (length vs)) fuel (reader_dec sc) s ParseSafety.Inv0 eq_refl
+              (script_bytes_concat _ Hb) Hfuel) as (l & Hl).
+  destruct (C18_cbor_run_spec_partial vs g fuel (reader_dec sc) s l eq_refl Hsc
+              ltac:(rewrite Hrem; exact Hb) ltac:(rewrite Hrem; exact Hsz) Hs
+              ltac:(rewrite Hrem; exact Hall) Hl) as (ts & A & B & C).
+  exists ts. split; [exact A|]. split; [exact B|]. rewrite Hl, C. reflexivity.
+Qed.
+Print Assumptions C18_cbor_reader_stream.
+
+Theorem C18_cbor_bytes_stream : forall b vs g fuel s,
+  all_bytes b = true -> zlen b <= CF.MaxInt64 -> s_fail s = None ->
+  Spec.cbor_decode_all g b = Some vs -> (1 < fuel)%nat ->
+  exists ts, map (fun t => cv (value_of t)) ts = vs /\ forallb wf_tree ts = true /\
+             dec_run fuel (S (length vs)) (bytes_dec b) s = Ok (expect (s_log s) ts).
+Proof.
+  intros b vs g fuel s Hb Hsz Hs Hall Hfuel.
+  destruct (dec_run_total (S (length vs)) fuel (bytes_dec b) s ParseSafety.Inv0 Hb eq_refl Hfuel) as (l & Hl).
+  destruct (C18_cbor_run_spec_partial vs g fuel (bytes_dec b) s l eq_refl eq_refl
+              ltac:(rewrite rem_bytes_dec; exact Hb) ltac:(rewrite rem_bytes_dec; exact Hsz) Hs
+              ltac:(rewrite rem_bytes_dec; exact Hall) Hl) as (ts & A & B & C).
+  exists ts. split; [exact A|]. split; [exact B|]. rewrite Hl, C. reflexivity.
+Qed.
+Print Assumptions C18_cbor_bytes_stream.
